@@ -16,6 +16,7 @@ import (
 	"testing"
 	"time"
 
+	"github.com/plgd-dev/go-coap/v3/message"
 	"github.com/plgd-dev/go-coap/v3/message/codes"
 	"github.com/plgd-dev/go-coap/v3/message/pool"
 	"github.com/plgd-dev/go-coap/v3/net/monitor/inactivity"
@@ -44,10 +45,11 @@ const (
 	sTickPF  // like tick+, but the ping cannot be sent (the write fails); KeepAlive object layer only
 	sPartial // some more bytes of a frame that never completes arrive (stream connections only): not a message
 	sTickJ   // now = last received MESSAGE + period + 10 ms (used after sPartial, which arrives >= 30 ms after that message)
+	sSend    // the application sends a message of its own (non-confirmable / one-way) >= 30 ms after the last received message: not a message FROM the peer
 	nSyms
 )
 
-var symNames = [...]string{"recv", "pong-current", "pong-stale", "tick-", "tick+", "tick++", "tick+(ping-unsendable)", "bytes-of-an-incomplete-frame", "tick(+10ms)"}
+var symNames = [...]string{"recv", "pong-current", "pong-stale", "tick-", "tick+", "tick++", "tick+(ping-unsendable)", "bytes-of-an-incomplete-frame", "tick(+10ms)", "application-sends"}
 
 func str(s []sym) string {
 	var b bytes.Buffer
@@ -319,6 +321,20 @@ func (d *udpDriver) recv(kind int) (time.Time, time.Time) {
 	return lo, time.Now()
 }
 
+// send: the application pushes a non-confirmable message to the peer (what a server does with notifications for a
+// subscriber that may be long gone). In real time well after the last received message, for the same reason as partial().
+func (d *udpDriver) send() {
+	time.Sleep(30 * time.Millisecond)
+	ctx, cancel := context.WithTimeout(context.Background(), 5*time.Second)
+	defer cancel()
+	req := d.cc.AcquireMessage(ctx)
+	defer d.cc.ReleaseMessage(req)
+	tok, _ := message.GetToken()
+	_ = req.SetupPost("/push", tok, message.TextPlain, bytes.NewReader([]byte("n")))
+	req.SetType(message.NonConfirmable)
+	_ = d.cc.WriteMessage(req)
+}
+
 func (d *udpDriver) pings() int { d.scan(); return len(d.pingMIDs) }
 func (d *udpDriver) pong(idx int) (time.Time, time.Time) {
 	d.scan()
@@ -426,6 +442,17 @@ func (d *tcpDriver) partial() {
 	time.Sleep(200 * time.Microsecond)
 }
 
+func (d *tcpDriver) send() {
+	time.Sleep(30 * time.Millisecond)
+	ctx, cancel := context.WithTimeout(context.Background(), 5*time.Second)
+	defer cancel()
+	req := d.cc.AcquireMessage(ctx)
+	defer d.cc.ReleaseMessage(req)
+	tok, _ := message.GetToken()
+	_ = req.SetupPost("/push", tok, message.TextPlain, bytes.NewReader([]byte("n")))
+	_ = d.cc.WriteMessage(req)
+}
+
 func (d *tcpDriver) pings() int { d.scan(); return len(d.pingToks) }
 func (d *tcpDriver) pong(idx int) (time.Time, time.Time) {
 	d.scan()
@@ -466,6 +493,12 @@ func runConn(rec *vr.Rec, layer string, d connDriver, lo, hi time.Time, keepAliv
 			if pd, ok := d.(interface{ partial() }); ok {
 				pd.partial()
 				rec.Count("conn_partial_frame_events", 1)
+			}
+		case sSend:
+			// what this endpoint sends says nothing about the peer: the period keeps running (lo/hi, u unchanged)
+			if sd, ok := d.(interface{ send() }); ok {
+				sd.send()
+				rec.Count("conn_application_send_events", 1)
 			}
 		case sPongS:
 			if !keepAlive || d.pings() < 2 {
@@ -617,6 +650,12 @@ func TestRun(t *testing.T) {
 	enumerate([]sym{sPartial, sTickM, sTickJ}, vr.Scale(3, 5), func(s []sym) {
 		jobs = append(jobs, job{"tcp", false, 0, append([]sym{sRecv}, s...)})
 		jobs = append(jobs, job{"tcp", true, 1 + len(s)%2, append([]sym{sRecv}, s...)})
+	})
+	// an application that keeps sending to a peer that has gone silent
+	enumerate([]sym{sSend, sTickM, sTickJ}, vr.Scale(3, 4), func(s []sym) {
+		jobs = append(jobs, job{"udp", false, 0, append([]sym{sRecv}, s...)})
+		jobs = append(jobs, job{"udp", true, 1 + len(s)%2, append([]sym{sRecv}, s...)})
+		jobs = append(jobs, job{"tcp", len(s)%2 == 0, 1, append([]sym{sRecv}, s...)})
 	})
 	rnd := rand.New(rand.NewSource(seed))
 	for i := 0; i < vr.Scale(60, 3000); i++ {
